@@ -309,6 +309,51 @@ def boundary_probe(run, tier, rng):
             check_run(run, s2, n_total, what)
 
 
+def band_probe(run, tier, rng):
+    """runs engineered (see c10.band_sampler) to terminate with beta = 1 - 2^-14, inside the tolerance but not equal to 1:
+    the exit conditions and evidence() = MIS evidence at beta = 1 must hold there too."""
+    import c10
+    for rep in range(2 if tier == "quick" else 8):
+        seed = rng.randrange(10 ** 6)
+        N, sig = rng.choice([16, 48]), rng.choice([5.0, 8.0])
+        what = dict(probe="termination-band", random_state=seed, n_particles=N, sigma=sig)
+        try:
+            out = c10.band_sampler(seed, N, sig)
+        except Exception as e:
+            run.fail("run-raises", f"band run raised {type(e).__name__}: {e}", **what)
+            continue
+        if out is None:
+            run.count("band probe: bracket unusable")
+            continue
+        s, ratio = out
+        b = float(s.state.get_current("beta"))
+        run.case(key=("band", rep), nontrivial=1 - 1e-4 < b < 1.0)
+        run.count("band probe: terminated with beta in (1-1e-4, 1)" if b < 1.0 else "band probe: terminated at beta = 1")
+        check_run(run, s, N // 2, dict(what, ess_ratio=ratio, beta_last=b))
+
+
+def resume_probe(run, tier, rng):
+    """the exit conditions are those of the CALL: a run resumed from a checkpoint with a larger n_total ends above it"""
+    import tempfile
+    from pathlib import Path
+    for rep in range(1 if tier == "quick" else 4):
+        seed = rng.randrange(10 ** 6)
+        work = Path(tempfile.mkdtemp(prefix="c12_", dir=run.scratch.dir))
+        cfg = dict(clustering=False, random_state=seed, n_particles=12, output_dir=str(work), output_label="r")
+        s = make_sampler(rng, False, **dict(cfg))
+        what = dict(probe="resume-with-larger-n_total", cfg={k: v for k, v in cfg.items() if k != "output_dir"}, first_n_total=24, second_n_total=90)
+        try:
+            s.run(n_total=24, progress=False, save_every=1)
+            ck = work / "r_final.state"
+            s2 = make_sampler(rng, False, **dict(cfg))
+            s2.run(n_total=90, progress=False, resume_state_path=str(ck))
+        except Exception as e:
+            run.fail("run-raises", f"resumed run raised {type(e).__name__}: {e}", **what)
+            continue
+        run.case(key=("resume", rep), nontrivial=True)
+        check_run(run, s2, 90, what)
+
+
 def sweep(run, tier, rng):
     cfgs = []
     for sample in ("tpcn", "rwm"):
@@ -360,6 +405,8 @@ def main(tier, seed):
     try:
         sweep(run, tier, rng)
         boundary_probe(run, tier, rng)
+        band_probe(run, tier, rng)
+        resume_probe(run, tier, rng)
     except Exception:
         import traceback
         run.broken.append(("harness-exception", traceback.format_exc()[-1500:]))
